@@ -13,6 +13,8 @@ import (
 	"fmt"
 	"sort"
 	"strings"
+	"sync"
+	"sync/atomic"
 
 	envoy_config_core_v3 "github.com/envoyproxy/go-control-plane/envoy/config/core/v3"
 	envoy_config_endpoint_v3 "github.com/envoyproxy/go-control-plane/envoy/config/endpoint/v3"
@@ -266,7 +268,7 @@ func c12(args []string) int {
 	rm := router.GetRoutersMangerInstance()
 	cvt := conv.NewConverter()
 	g := &rtGen{r: r, keepIDs: true}
-	run.Sum.Rule = "operation histories of 4-25 operations (quick: 300 histories, thorough: 2400) over 2 router names, 2 cluster names and 1 unknown name per history: AddOrUpdateRouters (generated configurations as in C04, ~20% rejected), AddRoute / RemoveAllRoutes (domains: configured ones, other hosts, mixed case, empty, malformed; 8% unbuildable routes), AddOrUpdatePrimaryCluster, AddOrUpdateClusterAndHost, RemovePrimaryCluster (1-2 names, unknown ones included), Update/Append/RemoveClusterHosts (hosts = address from a pool of 6 + weight, hostname, tls_disable, metadata; duplicates inside a batch; 12% of the operations re-append and a third of the updates re-send addresses that are already present with other attributes; removal of a present address followed later by its re-append), and ConvertUpdateEndpoints with real ClusterLoadAssignment protos of 0-3 localities (optional load_balancing_weight incl. 0 and 500, an address repeated in a later locality with another weight); after EVERY operation the object it addresses is fingerprinted (live / wrapper configuration / dump) and the live object is compared with one rebuilt from the dump; 45% of the router updates after the first are degenerate (no virtual hosts, nil route lists, duplicate default, unparsable regex), mostly aimed at routers that exist, 12% of the later cluster updates use an unknown lb type or the empty name; then a battery of requests per router name and the hosts WITH their attributes (Weight(), Hostname(), Metadata(), Config()) and lb type per cluster name are read from the real managers, from clusters rebuilt from the dump, and from the dumped host entries themselves.  Non-trivial: a history in which some object was updated at least twice; distinct by (history number, seed)."
+	run.Sum.Rule = "24 scripted histories (repeated AddRoute / RemoveAllRoutes with equal fast-index keys; re-application: A A B A for routers, clusters, host lists and endpoint assignments, a run-time route must not survive a re-applied configuration, remove and re-create under one name) + a probe of lookups racing with updates (one writer alternating two configurations and adding routes, 4 readers: every answer entirely from one table) + random operation histories of 4-25 operations (quick: 300 histories, thorough: 2400) over 2 router names, 2 cluster names and 1 unknown name per history: AddOrUpdateRouters (generated configurations as in C04, ~20% rejected), AddRoute / RemoveAllRoutes (domains: configured ones, other hosts, mixed case, empty, malformed; 8% unbuildable routes), AddOrUpdatePrimaryCluster, AddOrUpdateClusterAndHost, RemovePrimaryCluster (1-2 names, unknown ones included), Update/Append/RemoveClusterHosts (hosts = address from a pool of 6 + weight, hostname, tls_disable, metadata; duplicates inside a batch; 12% of the operations re-append and a third of the updates re-send addresses that are already present with other attributes; removal of a present address followed later by its re-append), and ConvertUpdateEndpoints with real ClusterLoadAssignment protos of 0-3 localities (optional load_balancing_weight incl. 0 and 500, an address repeated in a later locality with another weight); after EVERY operation the object it addresses is fingerprinted (live / wrapper configuration / dump) and the live object is compared with one rebuilt from the dump; 45% of the router updates after the first are degenerate (no virtual hosts, nil route lists, duplicate default, unparsable regex), mostly aimed at routers that exist, 12% of the later cluster updates use an unknown lb type or the empty name; then a battery of requests per router name and the hosts WITH their attributes (Weight(), Hostname(), Metadata(), Config()) and lb type per cluster name are read from the real managers, from clusters rebuilt from the dump, and from the dumped host entries themselves.  Non-trivial: a history in which some object was updated at least twice; distinct by (history number, seed)."
 	header := "From MV Require Import Model.Router Model.Update Gen.EndpointSrc.\nFrom Coq Require Import List String.\nImport ListNotations.\nOpen Scope string_scope.\n"
 	sh := run.NewShard(header, "up_case", "up_mismatches endpoints_update_per_locality")
 	weight := 0
@@ -286,11 +288,15 @@ func c12(args []string) int {
 		var rexisting []string // router names that have been added so far
 		// the first histories of every run are SCRIPTED: repeated AddRoute / RemoveAllRoutes with equal fast-index keys
 		var scriptedReqs []reqT
-		const nScripted = 12
+		const nScripted = 24
 		if hi < nScripted {
-			ops, scriptedReqs, allRoutes, lastDomains = scriptedRouteHistory(hi, r, rnames[0], unknown)
+			ops, scriptedReqs, allRoutes, lastDomains = scriptedRouteHistory(hi, r, rnames[0], unknown, cnames)
 			nops = 0
-			run.Sum.Distribution["scripted-history:add-route-equal-index-key"]++
+			if hi%12 < 6 {
+				run.Sum.Distribution["scripted-history:add-route-equal-index-key"]++
+			} else {
+				run.Sum.Distribution["scripted-history:re-application"]++
+			}
 		}
 		// the generator's own bookkeeping of which clusters exist and which addresses they hold (only used to aim operations)
 		exists := map[string]bool{}
@@ -802,8 +808,99 @@ func c12(args []string) int {
 			cluster.GetClusterMngAdapterInstance().TriggerClusterDel(n)
 		}
 	}
+	c12ConcurrentProbe(run, rm)
 	sh.Close()
 	return run.Finish()
+}
+
+// c12ConcurrentProbe: lookups racing with AddOrUpdateRouters / AddRoute on the real manager.  One writer alternates two
+// configurations A and B under one router name (every route of A names a cluster "A-...", of B "B-...") and adds routes
+// to the table in force; readers fetch the wrapper's routers and look a request up.  Every answer must come entirely from
+// A or entirely from B: never a nil routers object, never "no route" (both tables have a catch-all), never clusters of
+// both tables in one MatchAllRoutes answer, never a panic.
+func c12ConcurrentProbe(run *Run, rm types.RouterManager) {
+	name := fmt.Sprintf("s%dconcurrent", run.Seed)
+	mk := func(tab string, n int) cfgT {
+		c := cfgT{{Name: "vh0", Domains: []string{"*"}}, {Name: "vh1", Domains: []string{"x.test"}}}
+		for i := 0; i < n; i++ {
+			c[0].Routes = append(c[0].Routes, rtT{Cluster: fmt.Sprintf("%s-r%d", tab, i), Prefix: "/", Headers: []hmT{{Name: "k1", Value: "v1"}}})
+		}
+		c[0].Routes = append(c[0].Routes, rtT{Cluster: tab + "-base", Prefix: "/"})
+		c[1].Routes = []rtT{{Cluster: tab + "-x", Prefix: "/"}}
+		return c
+	}
+	if err := rm.AddOrUpdateRouters(mk("A", 2).v2config(name, false)); err != nil {
+		run.Fail("c12:concurrent-lookup:setup", err.Error(), nil)
+		return
+	}
+	q := reqT{Vars: map[string]string{types.VarHost: "any.test", types.VarPath: "/p", types.VarMethod: "GET"}, Hdr: map[string]string{"k1": "v1"}}
+	var stop int32
+	var wg sync.WaitGroup
+	var mu sync.Mutex
+	bad := map[string]string{}
+	lookups := 0
+	for rd := 0; rd < 4; rd++ {
+		wg.Add(1)
+		go func() {
+			defer wg.Done()
+			n := 0
+			for atomic.LoadInt32(&stop) == 0 {
+				n++
+				w := rm.GetRouterWrapperByName(name)
+				if w == nil || w.GetRouters() == nil {
+					mu.Lock()
+					bad["c12:concurrent-lookup:nil-routers"] = "the wrapper or its routers object was nil while the router was being updated"
+					mu.Unlock()
+					continue
+				}
+				one, found, all := lookup(w.GetRouters(), q)
+				sig, what := "", ""
+				if !found || len(all) == 0 {
+					sig, what = "c12:concurrent-lookup:no-route-during-update", "a request that both tables route got no route while the router was being updated"
+				} else {
+					for _, cl := range append([]string{one}, all...) {
+						if cl[0] != all[0][0] {
+							sig, what = "c12:concurrent-lookup:mixed-tables", fmt.Sprintf("one lookup was answered with routes of both tables: MatchRoute %q, MatchAllRoutes %v", one, all)
+						}
+					}
+				}
+				if sig != "" {
+					mu.Lock()
+					bad[sig] = what
+					mu.Unlock()
+				}
+			}
+			mu.Lock()
+			lookups += n
+			mu.Unlock()
+		}()
+	}
+	iters := run.N(150, 1500)
+	for i := 0; i < iters; i++ {
+		tab := "A"
+		if i%2 == 1 {
+			tab = "B"
+		}
+		if err := rm.AddOrUpdateRouters(mk(tab, 1+i%3).v2config(name, false)); err != nil {
+			bad["c12:concurrent-lookup:update-failed"] = err.Error()
+		}
+		rr := rtT{Cluster: fmt.Sprintf("%s-add%d", tab, i), Prefix: "/p"}.v2()
+		if err := rm.AddRoute(name, "nowhere.invalid", &rr); err != nil {
+			bad["c12:concurrent-lookup:update-failed"] = err.Error()
+		}
+		if i%5 == 0 {
+			rm.RemoveAllRoutes(name, "x.test")
+		}
+	}
+	atomic.StoreInt32(&stop, 1)
+	wg.Wait()
+	reportPanics(run, "c12", map[string]interface{}{"probe": "concurrent lookups during updates"})
+	for sig, what := range bad {
+		run.Fail(sig, what, map[string]interface{}{"probe": "concurrent lookups during updates", "updates": iters, "lookups": lookups})
+	}
+	run.Sum.Distribution["concurrent-probe:updates"] += iters
+	run.Sum.Distribution["concurrent-probe:lookups"] += lookups
+	run.Count(fmt.Sprintf("%d|concurrent", run.Seed), true, "concurrent-probe")
 }
 
 func pickDomain(r *Rng, configured []string) string {
@@ -978,7 +1075,7 @@ func compareClusterWithDump(run *Run, name string, rep interface{}) {
 // (reached through a domain no virtual host has).  Every added route must be APPENDED to the live route list exactly as
 // it is appended to the stored configuration.  The returned requests carry the headers and paths that tell the added
 // routes apart.
-func scriptedRouteHistory(n int, r *Rng, name, unknown string) (ops []opT, reqs []reqT, all []rtT, domains []string) {
+func scriptedRouteHistory(n int, r *Rng, name, unknown string, cnames []string) (ops []opT, reqs []reqT, all []rtT, domains []string) {
 	key := r.PickS([]string{"service", "k1", "x-env"})
 	val := r.PickS([]string{"svcA", "v1", "gray"})
 	other := val + "-other"
@@ -1006,7 +1103,71 @@ func scriptedRouteHistory(n int, r *Rng, name, unknown string) (ops []opT, reqs 
 		ops = append(ops, opT{Kind: "add-route", Name: name, Domain: domain, Route: &rt})
 	}
 	remove := func(domain string) { ops = append(ops, opT{Kind: "remove-routes", Name: name, Domain: domain}) }
-	switch n % 6 {
+	// configuration B: same router name, same domains, other content
+	cfgB := func() cfgT {
+		b := cfgT{
+			{Name: "vh0", Domains: []string{"svc.test"}, Routes: []rtT{mk("b0r0", "/a", val, false), mk("b0r1", "", other, false)}},
+			{Name: "vh1", Domains: []string{"*"}, Routes: []rtT{mk("b1r0", "/", val, false)}},
+		}
+		for _, vh := range b {
+			all = append(all, vh.Routes...)
+		}
+		return b
+	}
+	cfgA := func() cfgT { // a fresh copy of A (the manager keeps and mutates the object it is given)
+		a := cfgT{
+			{Name: "vh0", Domains: []string{"svc.test"}, Routes: []rtT{mk("v0r0", "", val, false)}},
+			{Name: "vh1", Domains: []string{"*"}, Routes: []rtT{mk("v1r0", "/a", val, false), mk("v1r1", "/", other, false)}},
+		}
+		return a
+	}
+	routers := func(c cfgT) { ops = append(ops, opT{Kind: "routers", Name: name, Config: c}) }
+	hostsX := []hostT{{Addr: addrPool[0], Weight: 1}, {Addr: addrPool[1], Weight: 5, Hostname: "h1"}}
+	hostsY := []hostT{{Addr: addrPool[1], Weight: 9, Meta: map[string]string{"zone": "b"}}, {Addr: addrPool[2], Weight: 1, TLSDisable: true}}
+	switch n % 12 {
+	case 6: // re-applied unchanged, then other content under the same name, then the first again (A A B A)
+		routers(cfgA())
+		routers(cfgB())
+		routers(cfgA())
+	case 7: // a route added at run time must not survive the re-application of the configuration (A +route A; A +route B A)
+		add("svc.test", "/", val, false)
+		routers(cfgA())
+		add("nowhere.invalid", "/", val, false)
+		routers(cfgB())
+		add("svc.test", "/a/b", val, false)
+		routers(cfgA())
+	case 8: // cluster with hosts: A, A again, B, A
+		c := cnames[0]
+		ops = append(ops, opT{Kind: "cluster-hosts", Name: c, Lb: "LB_RANDOM", CfgHosts: hostsX, Hosts: hostsX},
+			opT{Kind: "cluster-hosts", Name: c, Lb: "LB_RANDOM", CfgHosts: hostsX, Hosts: hostsX},
+			opT{Kind: "cluster-hosts", Name: c, Lb: "LB_ROUNDROBIN", CfgHosts: hostsY, Hosts: hostsY},
+			opT{Kind: "cluster-hosts", Name: c, Lb: "LB_RANDOM", CfgHosts: hostsX, Hosts: hostsX},
+			opT{Kind: "cluster", Name: c, Lb: "LB_LEAST_REQUEST", CfgHosts: hostsY}, // keeps the live hosts X
+			opT{Kind: "cluster", Name: c, Lb: "LB_LEAST_REQUEST", CfgHosts: hostsY})
+	case 9: // host lists: X, X, Y, X; the same append twice; the same removal twice
+		c := cnames[1]
+		ops = append(ops, opT{Kind: "cluster", Name: c, Lb: "LB_RANDOM"},
+			opT{Kind: "update-hosts", Name: c, Hosts: hostsX}, opT{Kind: "update-hosts", Name: c, Hosts: hostsX},
+			opT{Kind: "update-hosts", Name: c, Hosts: hostsY}, opT{Kind: "update-hosts", Name: c, Hosts: hostsX},
+			opT{Kind: "append-hosts", Name: c, Hosts: hostsY[:1]}, opT{Kind: "append-hosts", Name: c, Hosts: hostsY[:1]},
+			opT{Kind: "append-hosts", Name: c, Hosts: hostsX[1:]},
+			opT{Kind: "remove-hosts", Name: c, Addrs: []string{addrPool[0]}}, opT{Kind: "remove-hosts", Name: c, Addrs: []string{addrPool[0]}},
+			opT{Kind: "append-hosts", Name: c, Hosts: hostsX[:1]})
+	case 10: // the very same route added twice, removal twice, and again
+		add("svc.test", "/a", val, false)
+		ops = append(ops, ops[len(ops)-1])
+		remove("svc.test")
+		remove("svc.test")
+		ops = append(ops, ops[len(ops)-3])
+	case 11: // endpoint assignments: E, E again, E', E; cluster removed and created again under the same name
+		c := cnames[0]
+		e1 := [][]epT{{{Addr: addrPool[0], Weight: 3}}, {{Addr: addrPool[1], Weight: -1}}}
+		e2 := [][]epT{{{Addr: addrPool[1], Weight: 7}, {Addr: addrPool[3], Weight: 200}}}
+		ops = append(ops, opT{Kind: "cluster", Name: c, Lb: "LB_RANDOM"},
+			opT{Kind: "endpoints", Name: c, Localities: e1}, opT{Kind: "endpoints", Name: c, Localities: e1},
+			opT{Kind: "endpoints", Name: c, Localities: e2}, opT{Kind: "endpoints", Name: c, Localities: e1},
+			opT{Kind: "remove-clusters", Names: []string{c}}, opT{Kind: "cluster", Name: c, Lb: "LB_ROUNDROBIN", CfgHosts: hostsX},
+			opT{Kind: "endpoints", Name: c, Localities: e2})
 	case 0: // the same rpc key twice on the exact-domain virtual host
 		add("svc.test", "", val, false)
 		add("svc.test", "", val, false)
